@@ -246,3 +246,69 @@ pub proof fn lemma_in_batch_next(txx: Seq<Transaction>, j: int, h: TxHash)
     if in_batch(txx, j, h) { let q = choose|q: int| 0 <= q < j && h == spec_txhash(#[trigger] txx[q]); assert(0 <= q < j + 1 && h == spec_txhash(txx[q])); }
     if h == spec_txhash(txx[j]) { assert(0 <= j < j + 1 && h == spec_txhash(txx[j])); }
 }
+
+// ---- per-transaction checks
+/// C01: every denomination that leaves a (non-faucet) transaction came in with exactly the same amount; exempt: the
+/// transaction's own new token and the ERG a DoscMint creates (bounded separately by its reward)
+pub open spec fn balanced(kind: TxKind, inm: Map<Denom, u128>, outm: Map<Denom, CoinValue>) -> bool {
+    kind == TxKind::Faucet || forall|d: Denom| #[trigger] outm.contains_key(d) ==>
+        (d == Denom::NewCustom || (kind == TxKind::DoscMint && d == Denom::Erg) || (inm.contains_key(d) && outm[d].0 == inm[d]))
+}
+/// C13: a stake document is registered only if it starts in a future epoch, ends after it starts and stakes exactly the coin
+pub open spec fn stake_consistent(doc: StakeDoc, curr_epoch: u64, coin: CoinData) -> bool {
+    doc.e_start > curr_epoch && doc.e_post_end > doc.e_start && doc.syms_staked == coin.value
+}
+/// old rules: stake transactions are let through unregistered on mainnet/testnet below height 500000 (taken from the code)
+pub open spec fn stake_legacy(network: NetID, height: BlockHeight) -> bool { (network == NetID::Mainnet || network == NetID::Testnet) && height.0 < 500000 }
+pub open spec fn stake_malformed(tx: Transaction) -> bool {
+    tx.kind == TxKind::Stake && (de_stakedoc(tx.data@) is None || tx.outputs@.len() == 0 || tx.outputs@[0].denom != Denom::Sym)
+}
+/// the stake a transaction registers, if any (C13)
+pub open spec fn stake_reg(tx: Transaction, epoch: u64) -> Option<StakeDoc> {
+    if tx.kind == TxKind::Stake && de_stakedoc(tx.data@) is Some && tx.outputs@.len() > 0 && tx.outputs@[0].denom == Denom::Sym
+        && stake_consistent(de_stakedoc(tx.data@)->Some_0, epoch, tx.outputs@[0]) { de_stakedoc(tx.data@) } else { None }
+}
+pub open spec fn stakes_of(txx: Seq<Transaction>, j: int, epoch: u64, m: Map<TxHash, StakeDoc>) -> bool {
+    &&& forall|h: TxHash| #[trigger] m.contains_key(h) ==> exists|q: int| 0 <= q < j && h == spec_txhash(#[trigger] txx[q]) && stake_reg(txx[q], epoch) == Some(m[h])
+    &&& forall|q: int| 0 <= q < j && stake_reg(#[trigger] txx[q], epoch) is Some ==> m.contains_key(spec_txhash(txx[q]))
+}
+/// C04: the covenant carried for `covhash` decodes and evaluates to a true value on (tx, env)
+pub open spec fn script_approves(scripts: Map<Address, Bytes>, covhash: Address, tx: Transaction, env: CovenantEnv) -> bool {
+    scripts.contains_key(covhash) && spec_cov_decode(scripts[covhash]@) is Some
+    && (match spec_exec(spec_cov_decode(scripts[covhash]@)->Some_0, tx, Some(env)) { Some(v) => spec_truthy(v), None => false })
+}
+// ---- check_tx_validity (C04, C13, C01)
+pub open spec fn lock_legacy(network: NetID, height: BlockHeight) -> bool { (network == NetID::Mainnet || network == NetID::Testnet) && height.0 < 900000 }
+pub open spec fn env_of(tx: Transaction, rel: Map<CoinID, CoinDataHeight>, i: int, last_header: Header) -> CovenantEnv {
+    CovenantEnv { parent_coinid: tx.inputs@[i], parent_cdh: rel[tx.inputs@[i]], spender_index: i as u8, last_header: last_header }
+}
+pub uninterp spec fn spec_covenants_map(tx: Transaction) -> Map<Address, Bytes>;     // Transaction::covenants_as_map
+/// A-STRUCTS: the map holds, under each address, a covenant carried by the transaction whose hash is that address
+pub broadcast axiom fn axiom_covenants_map(tx: Transaction, a: Address)
+    requires #[trigger] spec_covenants_map(tx).contains_key(a)
+    ensures exists|k: int| 0 <= k < tx.covenants@.len() && h1((#[trigger] tx.covenants@[k])@) == a.0 && spec_covenants_map(tx)[a] == tx.covenants@[k];
+pub uninterp spec fn spec_total_outputs(tx: Transaction) -> Map<Denom, CoinValue>;   // Transaction::total_outputs
+/// no overflow in total_outputs: all output values plus the fee fit in u128 (sufficient for every per-denomination total)
+pub open spec fn outputs_fit(tx: Transaction) -> bool { tx.fee.0 + fsum(tx.outputs@, |o: CoinData| o.value.0 as int) <= u128::MAX }
+pub open spec fn in_value(rel: Map<CoinID, CoinDataHeight>) -> spec_fn(CoinID) -> int { |id: CoinID| if rel.contains_key(id) { rel[id].coin_data.value.0 as int } else { 0 } }
+/// per-denomination totals of the first n inputs
+pub open spec fn in_sums(inputs: Seq<CoinID>, rel: Map<CoinID, CoinDataHeight>, n: int) -> Map<Denom, u128> decreases n {
+    if n <= 0 { Map::empty() } else {
+        let m = in_sums(inputs, rel, n - 1); let cd = rel[inputs[n - 1]].coin_data;
+        m.insert(cd.denom, ((if m.contains_key(cd.denom) { m[cd.denom] as int } else { 0 }) + cd.value.0) as u128)
+    }
+}
+pub proof fn lemma_in_sums_bound(inputs: Seq<CoinID>, rel: Map<CoinID, CoinDataHeight>, n: int, d: Denom)
+    requires 0 <= n <= inputs.len(), forall|q: int| 0 <= q < n ==> rel.contains_key(#[trigger] inputs[q]),
+             fsum(inputs.take(n), in_value(rel)) <= u128::MAX
+    ensures in_sums(inputs, rel, n).contains_key(d) ==> in_sums(inputs, rel, n)[d] as int <= fsum(inputs.take(n), in_value(rel))
+    decreases n
+{
+    if n > 0 {
+        lemma_fsum_take_next(inputs, in_value(rel), n - 1);
+        lemma_fsum_nonneg(inputs.take(n - 1), in_value(rel));
+        lemma_in_sums_bound(inputs, rel, n - 1, d);
+        let cd = rel[inputs[n - 1]].coin_data;
+        lemma_in_sums_bound(inputs, rel, n - 1, cd.denom);
+    }
+}
